@@ -141,6 +141,8 @@ def prepare(params):
     if params["family"] == "T":
         box = [None]
         am = t_guards_am(params["asyncs"])
+        if params.get("event_objects"):
+            am["event_objects"] = True
         _CACHE["T"] = (am, render(am, box, class_name="C01T"), box)
 
 
@@ -163,6 +165,10 @@ def tasks(tier):
         for allow in (False, True):
             for s0 in range(4):
                 t_task("sync", rtc, allow, "bool", s0, 2 if quick else 3)
+    for s0 in range(4):
+        # the same template declared through id-less Event() objects passed by reference
+        out.append({"family": "T", "engine": "sync", "asyncs": [], "rtc": True, "allow": False, "vkind": "bool", "s0": s0,
+                    "steps": 1 if quick else 2, "event_objects": True})
     for s0 in range(4):
         t_task("sync", True, False, "int", s0, 2 if quick else 3)
         t_task("async_all", True, False, "int", s0, 1 if quick else 2)
@@ -199,7 +205,7 @@ BUDGET = {
 BOUNDS = {
     "quick": "T-guards template (4 states, 8 transitions, 3 candidates on (a,go), multi-event, internal, cond+unless, "
     "expression guard, 2 validators) x engines {sync, all-async, one-async-guard} x rtc x allow x value kind {bool,int}, "
-    "every pre-state, 2-event histories over 7 event ids with all guard values re-drawn per event; "
+    "every pre-state (also with the template declared through id-less Event() objects), 2-event histories over 7 event ids with all guard values re-drawn per event; "
     "G(2 states, 2 generated transitions, 3 event sets, 2 guard configs) + ring, 1 event from every state.",
     "thorough": "as quick with 3-event histories, also a one-async-validator rendering; G(2,2) with 4 guard configs and "
     "2-event histories; G(3 states, 2 generated transitions) reduced, 1 event.",
